@@ -140,10 +140,25 @@ def main(ck):
       if abs(np.linalg.norm(F['xquat'][b]) - 1) > 8 * EPS:
         raise Violation('xquat[%d] norm %.17g' % (b, np.linalg.norm(F['xquat'][b])), bucket='xquat-norm')
     pscale = 1 + np.abs(F['xpos']).max()
-    for name in ('xpos', 'xipos', 'geom_xpos', 'site_xpos', 'cam_xpos', 'subtree_com', 'xanchor'):
-      near('fk-' + name, F[name], getattr(k, name), pscale, K_EXACT * EPS, 'engine %s vs reference FK' % name, 'fk-pos')
-    for name in ('xmat', 'ximat', 'geom_xmat', 'site_xmat', 'cam_xmat'):
-      near('fk-' + name, F[name], getattr(k, name), 1.0, K_EXACT * EPS, 'engine %s vs reference FK' % name, 'fk-rot')
+    # the compiler snaps a geom/site/inertial frame onto the body or inertial frame when they agree within kFrameEps = 1e-6
+    # per component (mjtSameFrame); the engine then copies that frame. Snapped objects are compared with 4e-6.
+    snap = dict(geom_xpos=np.array(m.geom_sameframe) != 0, geom_xmat=np.array(m.geom_sameframe) != 0,
+                site_xpos=np.array(m.site_sameframe) != 0, site_xmat=np.array(m.site_sameframe) != 0,
+                xipos=np.array(m.body_sameframe) != 0, ximat=np.array(m.body_sameframe) != 0)
+    for name in ('xpos', 'xipos', 'geom_xpos', 'site_xpos', 'cam_xpos', 'subtree_com', 'xanchor', 'xmat', 'ximat', 'geom_xmat',
+                 'site_xmat', 'cam_xmat'):
+      rot = name.endswith('mat')
+      eng, ref = F[name], getattr(k, name)
+      sn = snap.get(name)
+      exact = np.ones(len(eng), dtype=bool) if sn is None else ~sn
+      if name == 'subtree_com':
+        near('fk-' + name, eng, ref, pscale, K_EXACT * EPS + (4e-6 if np.any(snap['xipos']) else 0), 'engine subtree_com vs reference FK', 'fk-pos')
+        continue
+      near('fk-' + name, eng[exact], ref[exact], 1.0 if rot else pscale, K_EXACT * EPS, 'engine %s vs reference FK' % name,
+           'fk-rot' if rot else 'fk-pos')
+      if not exact.all():
+        near('fk-snapped', eng[~exact], ref[~exact], 1.0 if rot else pscale, 4e-6, 'engine %s (frame snapped by the compiler) vs reference FK' % name,
+             'fk-rot' if rot else 'fk-pos')
     near('fk-xaxis', F['xaxis'], k.xaxis, 1.0, K_EXACT * EPS, 'engine xaxis vs reference FK', 'fk-rot')
     for b in range(nb):
       if kin.quat_dist(F['xquat'][b], k.xquat[b]) > 1e-7:   # arccos resolution near 1 is ~1e-8
@@ -397,7 +412,8 @@ def main(ck):
 
     njt = len(set(jt_.tolist()))
     offs = bool(np.any(np.abs(np.array(m.body_pos)[1:]) > 0) and (np.any(np.abs(np.array(m.jnt_pos)) > 0) or m.nsite > 0))
-    nt = ('depth>=2' in labels) and njt >= 2 and offs
+    depth2 = bool(np.any(np.array(m.body_parentid)[1:] > 0))
+    nt = depth2 and njt >= 2 and offs
     ck.case(nontrivial=nt, key=(gm.xml, seed),
             sample=dict(xml=gm.xml, seed=seed, nv=nv, nefc_rows_checked=nrows, labels=[l for l in labels if l.startswith('m:')]),
             labels=labels)
